@@ -13,11 +13,19 @@ Inductive closer :=
 | KPeerClose        (* the other end of the pipe is closed: the read loop sees EOF *)
 | KWriteFail.       (* the other end is closed, then conn.WritePacket fails and closes the connection *)
 
+(* when the PARENT context handed to NewMinecraftConn is cancelled *)
+Inductive cmode :=
+| CNone       (* never *)
+| CBefore     (* after the packets were handled, before any closer starts *)
+| CAfter      (* after all closers returned and the read loop ended *)
+| CRacing.    (* by one more goroutine released together with the closers *)
+
 Record case := mk {
   script : list hkind;        (* behaviour of HandlePacket for incoming packet 0, 1, ... *)
   closers : list closer;      (* one goroutine each, released together *)
   drain_first : bool;         (* the closers start only after every packet was handled *)
   n_after : nat;              (* writes started after all closers returned and the loop ended *)
+  cancel : cmode;
   o_alive : bool;             (* the child process survived the scenario *)
   o_handled : list nat;       (* packet numbers for which HandlePacket was entered, in order *)
   o_disc : nat;               (* number of Disconnected() calls *)
@@ -57,7 +65,8 @@ Definition holds (c : case) : bool :=
       else is_prefix (o_handled c) (seq 0 (length (script c)))).
 
 (* the model on a canonical schedule: the loop handles everything, the closers run one after the other,
-   the blocked read fails, then the late writes; the theorems say the compared values do not depend on
+   the blocked read fails, then the late writes (a parent-context cancel goes first, or after the read
+   loop ended); the theorems say the compared values do not depend on
    the schedule *)
 Definition gors_of (k : closer) : list gor :=
   match k with
@@ -68,12 +77,16 @@ Definition gors_of (k : closer) : list gor :=
   end.
 
 Definition model_run (c : case) :=
-  let gs1 := flat_map gors_of (closers c) in
-  let gs := gs1 ++ repeat GWrite (n_after c) in
-  let n1 := length gs1 in
+  let pre := match cancel c with CBefore | CRacing => [GCancel] | _ => [] end in
+  let post := match cancel c with CAfter => [GCancel] | _ => [] end in
+  let gs0 := pre ++ flat_map gors_of (closers c) in
+  let gs := gs0 ++ post ++ repeat GWrite (n_after c) in
+  let n0 := length gs0 in
+  let n1 := (n0 + length post)%nat in
   let sched := repeat O (length (script c))
-               ++ flat_map (fun i => [i; i; i]) (seq 1 n1)
+               ++ flat_map (fun i => [i; i; i]) (seq 1 n0)
                ++ [O]
+               ++ seq (S n0) (length post)
                ++ flat_map (fun i => [i; i; i]) (seq (S n1) (n_after c)) in
   (n1, run (program impl_cfg (script c) gs) sched cinit).
 
@@ -86,7 +99,7 @@ Definition model_agrees (c : case) : bool :=
   Nat.eqb (o_disc c) (n_disc evs)
   && Bool.eqb (o_alive c) (negb (died evs))
   && list_eqb wres_eqb (o_after c) (late_results n1 evs)
-  && Bool.eqb (o_closed c) (c_closed (final_state r))
+  && Bool.eqb (o_closed c) (seen_closed (final_state r))
   && (negb (drain_first c) || list_eqb Nat.eqb (o_handled c) (handled evs)).
 
 Definition judge (c : case) : verdict :=
